@@ -234,6 +234,9 @@ func rsPointInTime(tr *tracer.T, rng *rand.Rand, maxInMem uint64) {
 	wg.Add(1)
 	nkeys := 5 + rng.Intn(20)
 	vsize := []int{1, 10, 2000, 40000}[rng.Intn(4)]
+	if maxInMem != 0 && uint64(vsize) > maxInMem/8 {
+		vsize = int(maxInMem / 8) // a single write must fit the configured in-memory log size
+	}
 	go func() {
 		defer wg.Done()
 		lr := rand.New(rand.NewSource(rng.Int63()))
